@@ -616,6 +616,44 @@ func cmdCampaign(args []string) {
 			}
 		}
 	}
+	// some grammars number their first named token explicitly (the others keep automatic numbers; with several tokens on
+	// one %token line the number must not leak to the names behind it)
+	if *caseFile == "" {
+		for i, cs := range cases {
+			if i%5 == 2 && cs.Family != "probe" && cs.Family != "tokens" {
+				for k := range cs.Tokens {
+					if !cs.Tokens[k].Lit && cs.Tokens[k].Num == 0 {
+						cs.Tokens[k].Num = 300 + i%7
+						break
+					}
+				}
+			}
+		}
+	}
+	// some valued grammars number a tagged token by a LATER %token line that has no tag, with declarations of other
+	// tags in between ("%token <ia> A" ... "%token <st> B" ... "%token A 312"): A keeps its own tag
+	if *caseFile == "" {
+		for i, cs := range cases {
+			if i%7 != 3 || !cs.Valued || cs.Family == "probe" || cs.Family == "tokens" {
+				continue
+			}
+			for k, t := range cs.Tokens {
+				if t.Lit || t.Tag == "" || t.Num != 0 {
+					continue
+				}
+				other := false
+				for _, u := range cs.Tokens[k+1:] {
+					if u.Tag != "" && u.Tag != t.Tag {
+						other = true
+					}
+				}
+				if other {
+					cs.Tokens = append(cs.Tokens, Tok{Name: t.Name, Num: 310 + i%5})
+					break
+				}
+			}
+		}
+	}
 	// keep only cases yaccgo accepts (the campaign is about generated parsers)
 	var kept []*Case
 	var keptObs []*Obs
